@@ -4,7 +4,7 @@ import numpy as np
 import queuecore as qc
 
 PROP = 'C03'
-REQUIRES = ['Queue.Model']
+REQUIRES = ['Queue.Model', 'Queue.Spec']
 RULE = ('all seven queue classes; 1..6 stimuli; every vector of trial counts in {1,2,3}^n for n <= 3 (quick) / n <= 4 (thorough) and '
         'random counts 1..5 for larger n; every group_size 1..n+1 (incl. sizes that do not divide n and sizes larger than n); '
         'keep_complete_waveforms both ways; seeds; waveform lengths 0..6; request chunkings {1 big, unit steps, random}; run to empty and '
@@ -44,12 +44,20 @@ def impl(case):
     return qc.run_impl(case)
 
 
+def _tests(args, case):
+    from vlib import zlist
+    ns = [o[1] for o in case['ops']]
+    return [f"order_test {args} {zlist(ns)}", f"timeline_test {args} {zlist(ns)}"]
+
+
 def expr(case, res):
-    return qc.coq_expr(case, res)
+    e, n = qc.coq_expr(case, res, _tests)
+    case['_ntests'] = n
+    return e
 
 
 def agree(case, res, mo):
-    return qc.compare(case, res, mo)
+    return qc.compare(case, res, mo, case.get('_ntests', 0))
 
 
 def nontrivial(case, res):
